@@ -295,7 +295,10 @@ def indep_tail_check(ctx, what, after, items, prefix, data):
     if got != sorted(items):
         ctx.violation("oracle", "C01 APEv2: independent decoding of the saved tag differs from what was set (%s)" % what, data)
     if prefix is not None and after[:start] != prefix:
-        ctx.violation("oracle", "C02 APEv2: bytes before the tag changed by save (%s)" % what, data)
+        if after[:start].startswith(prefix) and after[len(prefix):start][:3] in (b"TAG", b"LYR"):
+            ctx.violation("oracle", "C03 APEv2: save left the old trailing ID3v1/Lyrics3 block in front of the new tag (%s)" % what, data)
+        else:
+            ctx.violation("oracle", "C02 APEv2: bytes before the tag changed by save (%s)" % what, data)
     # items sorted by (length, bytes) -- the canonical order C07 relies on
     raw = []
     p = loc[2]
